@@ -157,6 +157,11 @@ def search_call(e):
 def classify_marker(ctx, ci, fi, regex):
     repo = ctx.repo
     w = repo.walker(inline_depth=ctx.depth, max_paths=ctx.max_paths, split_ifexp=True)
+    entry = strategy_entry(repo, ci, fi, (lambda g: g == "hasattr(self.until_marker, 'search')") if regex else (lambda g: g == 'isinstance(self.until_marker, bytes)'))
+    if entry is not None:
+        # a locator chosen by _compile for this kind of marker is followed
+        w.const_heap = repo.strategy_consts(entry, keep=('byte_count', 'until_marker', 'field_name', 'include_delimiter', 'consume_delimiter', 'default',
+                                                         'delimiter_to_be_included', window_attr(repo).split('.', 1)[-1]))
     paths = w.paths(fi.node, cls=ci)
     ctx.unit('paths', len(paths))
     rule_c, rule_d = 'C06-marker-search', 'C06-include-consume'
